@@ -1595,4 +1595,21 @@ example : ∃ (f : Nat) (q : Int), getFrame [3, 2, 1] 4 = some (f, q) ∧ f < 3 
 example : ∃ t : Tether ℝ, ∃ e, t.ends = some e ∧ (e.1.x ≠ e.2.x ∨ e.1.y ≠ e.2.y) :=
   ⟨⟨1, 2, some (⟨1, 2⟩, ⟨4, 6⟩)⟩, (⟨1, 2⟩, ⟨4, 6⟩), rfl, Or.inl (by norm_num)⟩
 
+
+/-! ## Legacy exports: frame ranges of a selection -/
+
+/-- For legacy Pylake exports the ranges with dead time of ANY stack (sliced, indexed, cropped) are the legacy rule
+    (`legacy_frame_ranges`) applied to the DateTime ranges of the frames it shows — which are the slice of the full
+    stack's by `ranges_slice_refines`. -/
+theorem ranges_legacy_eq (s : Stack) (pages : List Page) :
+    s.ranges pages true true = (s.ranges pages true false).bind legacyRanges ∧
+      s.ranges pages false true = s.ranges pages false false := by
+  unfold Stack.ranges
+  simp only
+  constructor
+  · split
+    · rfl
+    · simp
+  · split <;> rfl
+
 end Verif.C07
